@@ -5,6 +5,7 @@ margin, constant, cast or operand in a getter, in a needed-size formula or in th
 definition differ syntactically and the lemma fail.
 -/
 import RubatoModel.Async
+import RubatoModel.Fft
 
 namespace Rubato.FormulaTie
 open Rubato Rubato.Gen
@@ -95,5 +96,107 @@ theorem formulas_read_the_expected_fields :
       ("sincOut_needed_new", ["chunk_size", "resample_ratio", "sinc_len"]),
       ("sincOut_buffer_len_new", ["max_resample_ratio_relative", "needed_input_size", "sinc_len"]),
       ("sincOut_range_test", ["new_ratio", "resample_ratio_original", "max_relative_ratio"])] := rfl
+
+/-! ### the synchronous (FFT) resamplers: block sizing and frame bookkeeping (`DivArith.ofNum ρ` = the `as f32` divisions
+as the translator emits them) -/
+
+section fft
+variable (ρ)
+
+theorem fftIo_sizes (ri ro chunk : Nat) :
+    fftSizes (DivArith.ofNum ρ) ri ro chunk false =
+      (let g := Formulas.fftIo_new_gcd (ρ := ρ) ri ro
+       let k := Formulas.fftIo_new_fft_chunks (ρ := ρ) chunk (Formulas.fftIo_new_min_chunk_in (ρ := ρ) ri g)
+       (Formulas.fftIo_new_fft_size_in (ρ := ρ) k ri g, Formulas.fftIo_new_fft_size_out (ρ := ρ) k ro g)) := rfl
+
+theorem fftIn_sizes (ri ro chunk sub : Nat) :
+    fftSizes (DivArith.ofNum ρ) ri ro (chunk / sub) false =
+      (let g := Formulas.fftIn_new_gcd (ρ := ρ) ri ro
+       let k := Formulas.fftIn_new_fft_chunks (ρ := ρ) (Formulas.fftIn_new_wanted_subsize (ρ := ρ) chunk sub)
+                  (Formulas.fftIn_new_min_chunk_in (ρ := ρ) ri g)
+       (Formulas.fftIn_new_fft_size_in (ρ := ρ) k ri g, Formulas.fftIn_new_fft_size_out (ρ := ρ) k ro g)) := rfl
+
+theorem fftOut_sizes (ri ro chunk sub : Nat) :
+    fftSizes (DivArith.ofNum ρ) ri ro (chunk / sub) true =
+      (let g := Formulas.fftOut_new_gcd (ρ := ρ) ri ro
+       let k := Formulas.fftOut_new_fft_chunks (ρ := ρ) (Formulas.fftOut_new_wanted_subsize (ρ := ρ) chunk sub)
+                  (Formulas.fftOut_new_min_chunk_out (ρ := ρ) ro g)
+       (Formulas.fftOut_new_fft_size_in (ρ := ρ) k ri g, Formulas.fftOut_new_fft_size_out (ρ := ρ) k ro g)) := rfl
+
+/-- `frames_needed` of FftFixedOut: in `new`, after every call, after `reset` -/
+theorem fftOut_frames_needed (wantedOut fo fi : Nat) :
+    (DivArith.ofNum ρ).cdiv wantedOut fo * fi =
+        Formulas.fftOut_new_frames_needed (ρ := ρ) (Formulas.fftOut_new_chunks_needed (ρ := ρ) wantedOut fo) fi ∧
+    (DivArith.ofNum ρ).cdiv wantedOut fo * fi =
+        Formulas.fftOut_proc_frames_needed (ρ := ρ) (Formulas.fftOut_proc_chunks_needed (ρ := ρ) wantedOut fo) fi ∧
+    (DivArith.ofNum ρ).cdiv wantedOut fo * fi =
+        Formulas.fftOut_reset_frames_needed (ρ := ρ) (Formulas.fftOut_reset_chunks_needed (ρ := ρ) wantedOut fo) fi :=
+  ⟨rfl, rfl, rfl⟩
+
+variable {σ υ : Type}
+
+theorem fft_getters (s : FState σ υ) :
+    (s.kind = .fftOut → s.inputFramesMax (DivArith.ofNum ρ) =
+        Formulas.fftOut_input_frames_max (ρ := ρ) s.chunkOut s.fftOut s.fftIn) ∧
+    (s.kind = .fftIn → s.outputFramesNext (DivArith.ofNum ρ) =
+        Formulas.fftIn_output_frames_next (ρ := ρ) s.saved s.chunkIn s.fftIn s.fftOut) ∧
+    (s.kind = .fftIn → s.outputFramesMax =
+        Formulas.fftIn_omax_result (ρ := ρ)
+          (Formulas.fftIn_omax_max_subchunks_to_process (ρ := ρ)
+            (Formulas.fftIn_omax_max_available_frames (ρ := ρ)
+              (Formulas.fftIn_omax_max_stored_frames (ρ := ρ) s.fftIn) s.chunkIn) s.fftIn) s.fftOut) ∧
+    (s.kind = .fftIn → s.outputDelay = Formulas.fftIn_output_delay (ρ := ρ) s.fftOut) ∧
+    (s.kind = .fftOut → s.outputDelay = Formulas.fftOut_output_delay (ρ := ρ) s.fftOut) ∧
+    (s.kind = .fftIo → s.outputDelay = Formulas.fftIo_output_delay (ρ := ρ) s.chunkOut) := by
+  refine ⟨?_, ?_, ?_, ?_, ?_, ?_⟩ <;> intro h <;>
+    simp only [FState.inputFramesMax, FState.outputFramesNext, FState.outputFramesMax, FState.outputDelay, h] <;> rfl
+
+/-- FftFixedIn::process_into_buffer: blocks ready and the output length it demands -/
+theorem fftIn_ready (saved chunkIn fi fo : Nat) :
+    (DivArith.ofNum ρ).fdiv (saved + chunkIn) fi * fo =
+      Formulas.fftIn_proc_needed_len (ρ := ρ)
+        (Formulas.fftIn_proc_nbr_chunks_ready (ρ := ρ) (Formulas.fftIn_proc_next_saved_frames (ρ := ρ) saved chunkIn) fi) fo :=
+  rfl
+
+end fft
+
+/-- each FFT formula reads exactly the locals / fields the model feeds it -/
+theorem fft_formulas_read_the_expected_fields :
+    Formulas.fftFormulaParams = [
+      ("fftIo_new_gcd", ["sample_rate_input", "sample_rate_output"]),
+      ("fftIo_new_min_chunk_in", ["sample_rate_input", "gcd"]),
+      ("fftIo_new_fft_chunks", ["chunk_size_in", "min_chunk_in"]),
+      ("fftIo_new_fft_size_out", ["fft_chunks", "sample_rate_output", "gcd"]),
+      ("fftIo_new_fft_size_in", ["fft_chunks", "sample_rate_input", "gcd"]),
+      ("fftIo_output_delay", ["chunk_size_out"]),
+      ("fftIn_new_gcd", ["sample_rate_input", "sample_rate_output"]),
+      ("fftIn_new_min_chunk_in", ["sample_rate_input", "gcd"]),
+      ("fftIn_new_wanted_subsize", ["chunk_size_in", "sub_chunks"]),
+      ("fftIn_new_fft_chunks", ["wanted_subsize", "min_chunk_in"]),
+      ("fftIn_new_fft_size_out", ["fft_chunks", "sample_rate_output", "gcd"]),
+      ("fftIn_new_fft_size_in", ["fft_chunks", "sample_rate_input", "gcd"]),
+      ("fftIn_output_delay", ["fft_size_out"]),
+      ("fftIn_proc_next_saved_frames", ["saved_frames", "chunk_size_in"]),
+      ("fftIn_proc_nbr_chunks_ready", ["next_saved_frames", "fft_size_in"]),
+      ("fftIn_proc_needed_len", ["nbr_chunks_ready", "fft_size_out"]),
+      ("fftIn_output_frames_next", ["saved_frames", "chunk_size_in", "fft_size_in", "fft_size_out"]),
+      ("fftIn_omax_max_stored_frames", ["fft_size_in"]),
+      ("fftIn_omax_max_available_frames", ["max_stored_frames", "chunk_size_in"]),
+      ("fftIn_omax_max_subchunks_to_process", ["max_available_frames", "fft_size_in"]),
+      ("fftIn_omax_result", ["max_subchunks_to_process", "fft_size_out"]),
+      ("fftOut_new_gcd", ["sample_rate_input", "sample_rate_output"]),
+      ("fftOut_new_min_chunk_out", ["sample_rate_output", "gcd"]),
+      ("fftOut_new_wanted_subsize", ["chunk_size_out", "sub_chunks"]),
+      ("fftOut_new_fft_chunks", ["wanted_subsize", "min_chunk_out"]),
+      ("fftOut_new_fft_size_out", ["fft_chunks", "sample_rate_output", "gcd"]),
+      ("fftOut_new_fft_size_in", ["fft_chunks", "sample_rate_input", "gcd"]),
+      ("fftOut_new_chunks_needed", ["chunk_size_out", "fft_size_out"]),
+      ("fftOut_new_frames_needed", ["chunks_needed", "fft_size_in"]),
+      ("fftOut_output_delay", ["fft_size_out"]),
+      ("fftOut_proc_chunks_needed", ["frames_needed_out", "fft_size_out"]),
+      ("fftOut_proc_frames_needed", ["chunks_needed", "fft_size_in"]),
+      ("fftOut_input_frames_max", ["chunk_size_out", "fft_size_out", "fft_size_in"]),
+      ("fftOut_reset_chunks_needed", ["chunk_size_out", "fft_size_out"]),
+      ("fftOut_reset_frames_needed", ["chunks_needed", "fft_size_in"])] := rfl
 
 end Rubato.FormulaTie
